@@ -135,3 +135,145 @@ def bytes_eq(a, b):
         else:
             conj.append(x == y)
     return z3.And(*conj) if conj else z3.BoolVal(True)
+
+
+# ---------------------------------------------------------------------------------------------------------------
+# base64 text of a fixed-length byte string (ClearKey endpoint, C11)
+B64_STD = 'ABCDEFGHIJKLMNOPQRSTUVWXYZabcdefghijklmnopqrstuvwxyz0123456789+/'
+BV6 = z3.BitVecSort(6)
+
+
+def b64_code(table, s):
+    """character code (Int term) that `table` assigns to the 6-bit term `s`: the standard alphabet is written out as
+    its three linear runs, every entry in which `table` departs from it becomes one more case"""
+    v = z3.BV2Int(s)
+    code = z3.If(v < 26, v + 65, z3.If(v < 52, v + 71, z3.If(v < 62, v - 4, z3.If(v == 62, z3.IntVal(43), z3.IntVal(47)))))
+    for k, ch in enumerate(table):
+        if ch != B64_STD[k]:
+            code = z3.If(v == k, z3.IntVal(ord(ch) if ch else -1), code)
+    return code
+
+
+class B64Text:
+    """a str (or ascii bytes) whose characters are base64 symbols: items are 6-bit terms rendered through `table`
+    (64 one-character strings, '' for a deleted symbol) or literal characters"""
+
+    def __init__(self, items, table=None):
+        self.items, self.table = list(items), list(table or B64_STD)
+
+    def clone_model(self):
+        return B64Text(self.items, self.table)
+
+    def frame_terms(self):
+        return {f'[{i}]': x for i, x in enumerate(self.items) if not isinstance(x, str)} | {'len': len(self.items)}
+
+    def len(self, eng):
+        if any(c == '' for c in self.table) and any(not isinstance(x, str) for x in self.items):
+            raise Unsupported('length of base64 text after deleting an alphabet character')
+        return len(self.items)
+
+    def codes(self):
+        return [z3.IntVal(ord(x)) if isinstance(x, str) else b64_code(self.table, x) for x in self.items]
+
+    def binop(self, eng, op, other, swapped):
+        import ast
+        if isinstance(op, ast.Add) and isinstance(other, str) and not swapped:
+            return B64Text(self.items + list(other), self.table)
+        raise Unsupported('operation on base64 text')
+
+    def method(self, eng, name, args, kwargs, e):
+        if name == 'replace' and len(args) == 2 and all(isinstance(a, str) for a in args) and len(args[0]) == 1 \
+                and len(args[1]) <= 1:
+            a, b = args
+            items = []
+            for x in self.items:
+                if isinstance(x, str) and x == a:
+                    if b:
+                        items.append(b)
+                else:
+                    items.append(x)
+            return B64Text(items, [b if c == a else c for c in self.table])
+        if name == 'translate' and len(args) == 1 and isinstance(args[0], dict) and \
+                all(isinstance(k, int) and (v is None or isinstance(v, (int, str))) for k, v in args[0].items()):
+            def tr(c):
+                if c == '' or ord(c) not in args[0]:
+                    return c
+                v = args[0][ord(c)]
+                return '' if v is None else (chr(v) if isinstance(v, int) else v)
+            if any(len(tr(c)) > 1 for c in self.table):
+                raise Unsupported('str.translate to a longer text')
+            items = []
+            for x in self.items:
+                items += list(tr(x)) if isinstance(x, str) else [x]
+            return B64Text(items, [tr(c) for c in self.table])
+        if name in ('rstrip', 'strip', 'lstrip') and len(args) == 1 and isinstance(args[0], str):
+            if any(c in args[0] for c in self.table if c):
+                raise Unsupported(f'str.{name} of characters a base64 symbol may render to')
+            items = list(self.items)
+            if name in ('rstrip', 'strip'):
+                while items and isinstance(items[-1], str) and items[-1] in args[0]:
+                    items.pop()
+            if name in ('lstrip', 'strip'):
+                while items and isinstance(items[0], str) and items[0] in args[0]:
+                    items.pop(0)
+            return B64Text(items, self.table)
+        raise Unsupported(f'str.{name} on base64 text')
+
+
+def b64encode(b):
+    """RFC 4648 section 4: the bits of the input in groups of six, zero-filled, '=' to a multiple of four"""
+    if not isinstance(b, BSeq) or b.kind == 'hex':
+        raise Unsupported('base64.b64encode of a non-bytes value')
+    if not b.items:
+        return B64Text([])
+    bits = z3.Concat(*b.items) if len(b.items) > 1 else b.items[0]
+    n = 8 * len(b.items)
+    fill = (-n) % 6
+    if fill:
+        bits = z3.Concat(bits, z3.BitVecVal(0, fill))
+        n += fill
+    items = [z3.simplify(z3.Extract(n - 1 - 6 * k, n - 6 - 6 * k, bits)) for k in range(n // 6)]
+    return B64Text(items + ['='] * ((-len(items)) % 4))
+
+
+def b64decode(eng, t):
+    """base64.b64decode(t) (validate=False) for text made of symbols and trailing '='.  CPython discards characters
+    outside the standard alphabet, so the symbols decode to themselves only if every one is rendered by its standard
+    character: that is the obligation `b64decode.standard_alphabet`; wrong padding raises binascii.Error."""
+    from ..engine import PyRaise
+    if isinstance(t, str):
+        import base64 as _b, binascii as _ba
+        try:
+            return BSeq([z3.BitVecVal(x, 8) for x in _b.b64decode(t)], 'bytes')
+        except _ba.Error:
+            raise PyRaise('binascii.Error')
+    if not isinstance(t, B64Text):
+        raise Unsupported('base64.b64decode of an unmodelled value')
+    syms = [x for x in t.items if not isinstance(x, str)]
+    lits = [x for x in t.items if isinstance(x, str)]
+    k = len(syms)
+    if any(isinstance(x, str) for x in t.items[:k]) or any(c != '=' for c in lits):
+        raise Unsupported('base64 text with literal characters between symbols')
+    if syms:
+        eng.oblige('safety', 'b64decode.standard_alphabet',
+                   z3.And(*[b64_code(t.table, s) == b64_code(B64_STD, s) for s in syms]))
+    if k % 4 == 1 or len(lits) < (-k) % 4:
+        raise PyRaise('binascii.Error')
+    if not syms:
+        return BSeq([], 'bytes')
+    bits = z3.Concat(*syms) if k > 1 else syms[0]
+    nb = (6 * k) // 8
+    return BSeq([z3.simplify(z3.Extract(6 * k - 1 - 8 * i, 6 * k - 8 - 8 * i, bits)) for i in range(nb)], 'bytes')
+
+
+def b64_eq(a, b):
+    """same characters: equal length and position-wise equal character codes"""
+    if not isinstance(a, B64Text) or not isinstance(b, B64Text):
+        return z3.BoolVal(False)
+    if any(c == '' for c in a.table + b.table) or len(a.items) != len(b.items):
+        # a deleted alphabet character makes the length depend on the data: not expressible here
+        if a.items == b.items and a.table == b.table:
+            return z3.BoolVal(True)
+        raise Unsupported('comparison of base64 texts of data-dependent length')
+    conj = [x == y for x, y in zip(a.codes(), b.codes())]
+    return z3.And(*conj) if conj else z3.BoolVal(True)
